@@ -759,7 +759,13 @@ def r32_order_agree(ctx):
                             elif isinstance(p_.op, ast.Sub) and p_.right is c:
                                 sign = ast.Sub
                     if sign is not None:
-                        return (sign, [U(x).replace(" ", "") for x in c.args])
+                        b = ctx.bound_args(f, c)
+                        cs = ctx.in_func(f, c).callees_of_call(c)
+                        vals = list(c.args)
+                        if len(cs) == 1 and all(
+                                p_ in b for p_ in cs[0].call_params):
+                            vals = [b[p_] for p_ in cs[0].call_params]
+                        return (sign, [U(x).replace(" ", "") for x in vals])
                 return None
             tb, fb = rng(n.body), rng(n.orelse)
             ok = tb == (ast.Add, [small, big + "-1"]) and \
